@@ -210,6 +210,14 @@ impl<'a> Gen<'a> {
         if b.len() == 77 { for i in 65..73 { let mut x = b.to_vec(); x[i] ^= 0x10; self.blob("pid_raw", &x); rechecksum(&mut x); self.blob("pid_rechecksummed", &x); } }
         // each checksum byte
         for i in body..b.len() { for d in [1u8, 0x80, 0xff] { let mut x = b.to_vec(); x[i] ^= d; self.blob("checksum", &x); if d == 1 { strs.push(base58_monero::encode(&x).unwrap()); } } }
+        // several checksum bytes at once: the same mask on two / all four bytes (differences that cancel under xor), complement,
+        // reversal, rotation, a checksum of a different body
+        for (i, j) in [(0usize, 1usize), (0, 3), (1, 2), (2, 3)] { for d in [1u8, 0x55, 0xff] { let mut x = b.to_vec(); x[body + i] ^= d; x[body + j] ^= d; self.blob("checksum_multi", &x); } }
+        { let mut x = b.to_vec(); for k in 0..4 { x[body + k] ^= 0xa5; } self.blob("checksum_multi", &x);
+          let mut x = b.to_vec(); for k in 0..4 { x[body + k] = !x[body + k]; } self.blob("checksum_multi", &x);
+          let mut x = b.to_vec(); x[body..].reverse(); self.blob("checksum_multi", &x);
+          let mut x = b.to_vec(); x[body..].rotate_left(1); self.blob("checksum_multi", &x);
+          let mut x = b.to_vec(); let c = keccak4(&b[1..body]); x[body..].copy_from_slice(&c); self.blob("checksum_multi", &x); }
         // every truncation length, raw and with the last four bytes made a checksum of the rest
         for n in 0..b.len() {
             self.blob("truncated", &b[..n]);
@@ -237,7 +245,7 @@ pub fn run(o: &mut Out, tier: &str, seed: u64) {
     // 3 networks × 3 types × random valid keys / payment ids, every form, both directions
     for n in NETS { for k in KINDS { for _ in 0..per_cell {
         let (s, v) = (valid_key(&mut g.rng), valid_key(&mut g.rng));
-        let pid = if k == "Integrated" { g.rng.bytes(8) } else { vec![] };
+        let pid = if k == "Integrated" { match g.rng.below(6) { 0 => vec![0u8; 8], 1 => vec![0xff; 8], 2 => { let mut p = vec![0u8; 8]; p[7] = 1; p } _ => g.rng.bytes(8) } } else { vec![] };
         let a = match k { "Standard" => Address::standard(n, s, v), "SubAddress" => Address::subaddress(n, s, v), _ => Address::integrated(n, s, v, PaymentId::from_slice(&pid)) };
         g.forms(&a, n, k, &pid);
         addrs.push(a);
